@@ -1,3 +1,165 @@
 import DaeVerif.C08.Model
+/-!
+# C08 — helper lemmas (association list, generic invariant preservation, the invariants)
+-/
 namespace DaeVerif.C08
+
+/-! ## the association list -/
+
+theorem find_mem {es : List (Key × Entry)} {k : Key} {e : Entry} (h : find es k = some e) : (k, e) ∈ es := by
+  induction es with
+  | nil => simp [find] at h
+  | cons p rest ih =>
+    obtain ⟨k', e'⟩ := p
+    simp only [find] at h
+    split at h
+    · rename_i hk; cases h; subst hk; exact List.mem_cons_self
+    · exact List.mem_cons_of_mem _ (ih h)
+
+theorem mem_erase {es : List (Key × Entry)} {k : Key} {p : Key × Entry} :
+    p ∈ erase es k ↔ p ∈ es ∧ p.1 ≠ k := by
+  simp [erase, List.mem_filter]
+
+theorem mem_store {es : List (Key × Entry)} {k : Key} {e : Entry} {p : Key × Entry} :
+    p ∈ store es k e ↔ p = (k, e) ∨ (p ∈ es ∧ p.1 ≠ k) := by
+  simp [store, mem_erase]
+
+theorem find_erase (es : List (Key × Entry)) (k k' : Key) :
+    find (erase es k) k' = if k = k' then none else find es k' := by
+  induction es with
+  | nil => simp [erase, find]
+  | cons p rest ih =>
+    obtain ⟨k0, e0⟩ := p
+    simp only [erase, List.filter] at ih ⊢
+    by_cases h0 : k0 = k
+    · subst h0
+      simp only [ne_eq, not_true_eq_false, decide_false]
+      rw [ih]
+      by_cases hk : k0 = k'
+      · simp [hk]
+      · simp [hk, find]
+    · simp only [ne_eq, h0, not_false_eq_true, decide_true, find]
+      rw [ih]
+      by_cases hk : k = k'
+      · subst hk; simp [h0]
+      · simp [hk]
+
+theorem find_store (es : List (Key × Entry)) (k : Key) (e : Entry) (k' : Key) :
+    find (store es k e) k' = if k = k' then some e else find es k' := by
+  simp only [store, find]
+  by_cases hk : k = k'
+  · simp [hk]
+  · simp [hk, find_erase]
+
+/-- every stored pair satisfies `P` -/
+def AllE (P : Key → Entry → Prop) (es : List (Key × Entry)) : Prop := ∀ p ∈ es, P p.1 p.2
+
+theorem AllE.filter {P : Key → Entry → Prop} {es : List (Key × Entry)} (f : Key × Entry → Bool)
+    (h : AllE P es) : AllE P (es.filter f) := fun p hp => h p (List.mem_filter.mp hp).1
+
+theorem AllE.erase {P : Key → Entry → Prop} {es : List (Key × Entry)} (k : Key)
+    (h : AllE P es) : AllE P (erase es k) := h.filter _
+
+theorem AllE.store {P : Key → Entry → Prop} {es : List (Key × Entry)} {k : Key} {e : Entry}
+    (h : AllE P es) (he : P k e) : AllE P (store es k e) := by
+  intro p hp
+  rcases mem_store.mp hp with rfl | ⟨hp, _⟩
+  · exact he
+  · exact h p hp
+
+theorem AllE.mono {P Q : Key → Entry → Prop} {es : List (Key × Entry)} (hpq : ∀ k e, P k e → Q k e)
+    (h : AllE P es) : AllE Q es := fun p hp => hpq _ _ (h p hp)
+
+theorem mem_cloneAll {es : List (Key × Entry)} {id0 : Nat} {p : Key × Entry} (hp : p ∈ cloneAll es id0) :
+    ∃ k e i, (k, e) ∈ es ∧ id0 ≤ i ∧ i < id0 + es.length ∧ p = (k, cloneForReload e i) := by
+  induction es generalizing id0 with
+  | nil => simp [cloneAll] at hp
+  | cons q rest ih =>
+    obtain ⟨k0, e0⟩ := q
+    simp only [cloneAll, List.mem_cons] at hp
+    rcases hp with rfl | hp
+    · exact ⟨k0, e0, id0, List.mem_cons_self, Nat.le_refl _, by simp, rfl⟩
+    · obtain ⟨k, e, i, hm, h1, h2, rfl⟩ := ih hp
+      exact ⟨k, e, i, List.mem_cons_of_mem _ hm, by omega, by simp only [List.length_cons]; omega, rfl⟩
+
+theorem length_cloneAll (es : List (Key × Entry)) (id0 : Nat) : (cloneAll es id0).length = es.length := by
+  induction es generalizing id0 with
+  | nil => rfl
+  | cons q rest ih => obtain ⟨k0, e0⟩ := q; simp [cloneAll, ih]
+
+/-! ## generic preservation of a per-entry invariant by one step
+
+`P` holds before the step, `Q` must hold after it (they differ in the ghost data they mention:
+the history so far, the latest instant, the next free id). -/
+
+theorem janitor_subset (cfg : Cfg) (s : State) (now : Int) (choice : List Key) :
+    ∀ p ∈ (s.janitor cfg now choice).entries, p ∈ s.entries := by
+  intro p hp
+  simp only [State.janitor, lruEvict, timeEvict] at hp
+  split at hp <;> split at hp <;>
+    first
+    | exact (List.mem_filter.mp (List.mem_filter.mp hp).1).1
+    | exact (List.mem_filter.mp hp).1
+    | exact hp
+
+theorem step_AllE {P Q : Key → Entry → Prop} (w : World) (op : Op)
+    (mono : ∀ k e, P k e → Q k e)
+    (hins : ∀ now key host qtype ttl ans nAns ns, op = .insert now key host qtype ttl ans nAns ns false →
+      Q (insKey key host qtype) (insEntry w.cfg w.st.nextId now key host qtype ttl ans nAns ns))
+    (hlook : ∀ now key ign e e' r, op = .lookup now key ign → (key, e) ∈ w.st.entries → P key e →
+      lookupEntry w.cfg now ign e = (some e', r) → Q key e')
+    (hclone : ∀ c k e id, op = .reload c → P k e → w.st.nextId ≤ id → id < w.st.nextId + w.st.entries.length →
+      Q k (cloneForReload e id))
+    (hrd : ∀ now key e, op = .refreshDone now key → (key, e) ∈ w.st.entries → P key e → e.deadline > now →
+      e.refreshing = true → Q key { e with refreshing := false })
+    (h : AllE P w.st.entries) : AllE Q (step w op).1.st.entries := by
+  cases op with
+  | insert now key host qtype ttl ans nAns ns isIp =>
+    simp only [step, State.insert]
+    cases isIp with
+    | true => exact h.mono mono
+    | false =>
+      simp only [Bool.false_eq_true, if_false]
+      exact (h.mono mono).store (hins now key host qtype ttl ans nAns ns rfl)
+  | lookup now key ign =>
+    simp only [step, State.lookup]
+    cases hf : find w.st.entries key with
+    | none => exact h.mono mono
+    | some e0 =>
+      have hm := find_mem hf
+      cases hl : lookupEntry w.cfg now ign e0 with
+      | mk oe r =>
+        cases oe with
+        | none => simp only [hl]; exact (h.mono mono).erase _
+        | some e' => simp only [hl]; exact (h.mono mono).store (hlook now key ign e0 e' r rfl hm (h _ hm) hl)
+  | janitor now choice =>
+    simp only [step]
+    intro p hp
+    exact mono _ _ (h p (janitor_subset _ _ _ _ p hp))
+  | reload c =>
+    simp only [step, State.reload]
+    intro p hp
+    obtain ⟨k, e, i, hm, h1, h2, rfl⟩ := mem_cloneAll hp
+    exact hclone c k e i rfl (h _ hm) h1 h2
+  | reconf c => exact h.mono mono
+  | refreshDone now key =>
+    simp only [step, State.refreshDone]
+    cases hf : find w.st.entries key with
+    | none => exact h.mono mono
+    | some e =>
+      have hm := find_mem hf
+      simp only []
+      split
+      · split
+        · rename_i hd hr
+          exact (h.mono mono).store (hrd now key e rfl hm (h _ hm) hd hr)
+        · exact h.mono mono
+      · exact (h.mono mono).erase _
+  | remove key => exact (h.mono mono).erase _
+  | removeFamily base =>
+    simp only [step, State.removeFamily]
+    split
+    · exact h.mono mono
+    · exact (h.mono mono).filter _
+
 end DaeVerif.C08
